@@ -1623,7 +1623,7 @@ def select__fold_left(self: XPathFunction, context: ta.ContextType = None) \
     if func.arity != 2:
         raise self.error('XPTY0004', "function arity must be 2")
 
-    zero = self.get_argument(context, index=1)
+    zero = xlist(self[1].select(copy(context)))  # $zero as item()*
 
     result = zero
     for item in self[0].select(context):
@@ -1648,7 +1648,7 @@ def select__fold_right(self: XPathFunction, context: ta.ContextType = None) \
     if func.arity != 2:
         raise self.error('XPTY0004', "function arity must be 2")
 
-    zero = self.get_argument(context, index=1)
+    zero = xlist(self[1].select(copy(context)))  # $zero as item()*
 
     result = zero
     sequence = [x for x in self[0].select(context)]
